@@ -227,10 +227,11 @@ def raise_undecided(msg):
 
 def post_checks(pid, tier, seed, evidence):
     """bounded stand-ins on the real code (labelled bounded, never counted in obligations/discharged); second back end in the thorough tier"""
+    extra = []
     if pid in KANI and tier == 'thorough' and evidence is not None:
-        return kani_second_backend(pid, evidence)
+        extra = kani_second_backend(pid, evidence)      # in addition to the bounded stand-in below
     if pid not in BOUNDED:
-        return []
+        return extra
     binary = build_replay(pid)
     info = dict(BOUNDED[pid], bound=BOUNDED[pid]['bound'][tier], label='BOUNDED - not counted as proved')
     viol = []
@@ -259,8 +260,7 @@ def post_checks(pid, tier, seed, evidence):
             info['status'] = 'replay binary failed (exit %s): %s' % (rc, err)
     if evidence is not None:
         evidence['coverage'].setdefault('bounded_standins', []).append(info)
-    return viol
-
+    return extra + viol
 
 def make_replay(pid, v, tier, seed):
     d = os.path.join(VERIF, 'replays')
